@@ -101,7 +101,9 @@ class Hist:
         head = ""
         self.kids[0] = []
         if r.random() < 0.25:
-            head = "<!DOCTYPE r>"
+            # sometimes with declarations: the document type then has entity and notation maps (read-only in the DOM)
+            head = r.choice(["<!DOCTYPE r>", "<!DOCTYPE r>",
+                             "<!DOCTYPE r [<!ENTITY e 'v'><!NOTATION n SYSTEM 's'><!ENTITY u SYSTEM 'x' NDATA n>]>"])
             self.shadow.append("doctype")
             self.kids[0].append(len(self.shadow) - 1)
         if r.random() < 0.2:
